@@ -110,7 +110,7 @@ func New(cfg Config) *Sys {
 	if cfg.Chains == 3 {
 		names = append(names, C)
 	}
-	accts := []string{"r1", "r2", "u1", "u2", "out", "r3"}
+	accts := []string{"r1", "r2", "u1", "u2", "out", "r3", "r4", "x1"}
 	for _, n := range names {
 		s.w.Add(n, world.Options{Accounts: accts})
 	}
@@ -148,6 +148,15 @@ func New(cfg Config) *Sys {
 					}
 				}
 				c.App.XIBCKeeper.ClientKeeper.RegisterRelayers(ctx, c.Accounts["r3"].Acc.String(), chains, addrs)
+				// r4 relays as well and left its address on the counterparties empty: acknowledgements of packets it
+				// delivers carry an empty relayer field. x1 is a relayer for a chain that is none of the world's: whatever
+				// an acknowledgement says, x1 is never the fee recipient of a packet of these paths
+				if n == B {
+					// (registered on chain B only: on the other chains nobody's address for B is the empty string)
+					empty := make([]string, len(chains))
+					c.App.XIBCKeeper.ClientKeeper.RegisterRelayers(ctx, c.Accounts["r4"].Acc.String(), chains, empty)
+				}
+				c.App.XIBCKeeper.ClientKeeper.RegisterRelayers(ctx, c.Accounts["x1"].Acc.String(), []string{"elsewhere-1"}, []string{strings.ToLower(c.Accounts["x1"].Eth.String())})
 			}
 			u1 := c.Accounts["u1"]
 			// origin ERC-20 of this chain (deployed by u1, who holds minter role) with balance for u1
@@ -291,7 +300,10 @@ func (s *Sys) Ops() []string {
 	}
 	for _, t := range s.tr {
 		for _, f := range s.cfg.RecvForms {
-			if f == "g3" && !strings.Contains(t.Kind, "+callrevert") && t.Kind != "feeonly1" {
+			if f == "g4" && t.Dst != B {
+				continue // r4 relays on chain B only
+			}
+			if (f == "g3" || f == "g4") && !strings.Contains(t.Kind, "+callrevert") && t.Kind != "feeonly1" {
 				continue // the unresolvable fee recipient matters where an error acknowledgement must refund and where a fee is escrowed
 			}
 			out = append(out, fmt.Sprintf("recv %s %s", t.ID, f))
@@ -347,6 +359,9 @@ func (s *Sys) sendTx(src, dst *world.Chain, kind string, amount int64) (tx []byt
 		feeTok = d.TokenAddress
 	case "unknown": // destination without a client
 		d.DstChain = "nochain-77"
+		d.TokenAddress = s.tok[short[src.Name]+":erc20"]
+	case "unknownslash", "unknowndot", "unknownup": // no client either: spellings that a path clean-up would turn into dst's name
+		d.DstChain = map[string]string{"unknownslash": dst.Name + "/", "unknowndot": "./" + dst.Name, "unknownup": "x/../" + dst.Name}[base]
 		d.TokenAddress = s.tok[short[src.Name]+":erc20"]
 	case "feeonly1": // erc20 with a fee of 1
 		d.TokenAddress = s.tok[short[src.Name]+":erc20"]
@@ -624,6 +639,11 @@ func (s *Sys) stepSend(src, dst *world.Chain, kind string, amt, fee int64, tx []
 		return fmt.Sprintf("send rejected code=%d vm=%q", r.Code, r.VMError), class
 	}
 	class += " accepted"
+	if strings.HasPrefix(kind, "unknown") {
+		add("C04", "send-to-a-destination-without-a-client-accepted", fmt.Sprintf("send %s on %s succeeded and changed %v", kind, short[src.Name], d))
+		s.dead = "send to an unknown destination accepted"
+		return "sent to unknown destination", class
+	}
 	nt := s.observeSends(src, pre, post, r, add, "send "+kind)
 	if len(nt) != 1 {
 		add("C04", "send-not-exactly-one-commitment", fmt.Sprintf("successful send %s on %s produced %d commitments", kind, short[src.Name], len(nt)))
@@ -808,6 +828,8 @@ func (s *Sys) recvMsg(t *transfer, form string) (msgs []sdk.Msg, signer world.Ac
 		signer = dst.Accounts["r2"]
 	case "g3":
 		signer = dst.Accounts["r3"]
+	case "g4":
+		signer = dst.Accounts["r4"]
 	case "reenc":
 		bz = reencode(bz)
 	case "alt":
@@ -1024,7 +1046,7 @@ func (s *Sys) Key() string {
 		}
 		// the fee recipient named in the stored acknowledgement decides whether the source chain will take it
 		rel := ""
-		if t.AckBytes != nil && src != nil && strings.Contains(fieldsOf(indepAck, t.AckBytes), ghostAddr(t.Dst, t.Src)) {
+		if t.AckBytes != nil && src != nil && (strings.Contains(fieldsOf(indepAck, t.AckBytes), ghostAddr(t.Dst, t.Src)) || strings.Contains(fieldsOf(indepAck, t.AckBytes), " F3: F4:")) {
 			rel = "/fee-recipient-unknown-to-source"
 		}
 		parts = append(parts, fmt.Sprintf("%s[%s %d]%s/%s%s", t.ID, t.Kind, t.Amount, st, prov, rel))
@@ -1429,9 +1451,14 @@ var ForgedLogScript = []string{"send A B erc20 3", "send A B forgedlog 1", "send
 // UpgradeScript: traffic, then the software upgrade on the sending chain.
 var UpgradeScript = []string{"send A B erc20 3", "send A B native 1", "send A C erc20 1", "upd B A", "upd B A", "recv A>B#1 g1", "upgrade A"}
 
+// EmptyRelayerScript: packets with a fee and with a reverting call are delivered by the relayer that registered an empty
+// address for the source chain; their acknowledgements name nobody the source chain knows (it must refuse them whole:
+// no status, no refund, no fee to anybody — in particular not to a relayer of some other chain).
+var EmptyRelayerScript = []string{"send A B feeonly1 1", "send A B erc20+callrevert 1", "upd B A", "upd A B", "upd B A", "recv A>B#1 g4", "recv A>B#2 g4", "upd A B", "upd B A", "upd A B", "ack A>B#1 g1", "ack A>B#2 g1", "ack A>B#1 g2"}
+
 func ScriptedViolations(prop string) (steps int, out []ScriptViol) {
 	seen := map[string]bool{}
-	for _, script := range [][]string{RestartScript, ManySendsScript, HookScript, ForgedLogScript, UpgradeScript} {
+	for _, script := range [][]string{RestartScript, ManySendsScript, HookScript, ForgedLogScript, UpgradeScript, EmptyRelayerScript} {
 		s := New(Config{Chains: 3, MaxSends: 14, Prop: prop})
 		for i, op := range script {
 			_, _, vs := s.Apply(op)
